@@ -89,11 +89,115 @@ Diff(r) == Cardinality({ f \in DOMAIN SdpF : r[f] # GoodSdp[f] })
 SdpPool == { r \in SdpAll : Diff(r) <= (IF Level >= 2 THEN 3 ELSE 2) }
 Media == [k |-> "media"]
 
-Cfgs == CASE Surf = "rtp" -> { [vc |-> v, ac |-> "aac", sub |-> s] : v \in {"avc", "hevc"}, s \in {"n", "y"} }
+
+\* HTTP surfaces of lal as server
+ApiEps == {"stat_group", "stat_all_group", "stat_lal_info", "start_relay_pull", "stop_relay_pull", "kick_session", "start_rtp_pub",
+           "add_ip_blacklist", "lal_html", "unknown", "root", "api_dir", "case", "dots"}
+ApiBodies == {"none", "empty", "ok", "notjson", "trunc", "array", "null", "string", "number", "missing", "firstonly", "wrongtype_num",
+              "wrongtype_str", "wrongtype_obj", "wrongtype_arr", "wrongtype_bool", "nullfields", "huge", "exp", "neg", "float", "max64",
+              "emptystr", "longstr", "unknown", "nested", "nested_open", "dup", "dup_types", "big", "utf", "bom", "trailing", "caps"}
+ApiSpecial == [ start_relay_pull |-> {"url_empty", "url_garbage", "url_noscheme", "url_nopath", "url_onlyapp", "url_badport", "url_rtsp",
+                                      "url_rtsp_user", "url_flv", "url_unknown", "url_space", "url_long", "url_ipv6"},
+                start_rtp_pub |-> {"rtp_port_neg", "rtp_port_big", "rtp_port_1", "rtp_tcp", "rtp_dump", "rtp_empty_name"},
+                add_ip_blacklist |-> {"bl_badip", "bl_neg", "bl_max"},
+                kick_session |-> {"kick_empty", "kick_nostream"} ]
+ApiQueries == {"q_stream", "q_nostream", "q_emptyval", "q_dup", "q_esc", "q_badesc", "q_long", "q_semi"}
+HPaths == {"ok", "noext", "onlyext", "emptyname", "root", "prefixonly", "deep", "noapp", "esc", "badesc", "pctend", "long", "dotdot", "dotdot2",
+           "space", "utf", "dblslash", "twoext", "upper", "hash", "semicolon", "tsname", "tsname_bad", "star", "abs", "noslash"}
+HQueries == {"none", "empty", "novalue", "noname", "ok", "dup", "esc", "badesc", "long", "session", "session_empty", "amp", "qq", "semi"}
+HHeaders == {"plain", "ws_ok", "ws_nokey", "ws_emptykey", "ws_badkey", "ws_longkey", "ws_twokeys", "ws_upgrade_only", "ws_conn_only", "ws_case",
+             "nohost", "emptyhost", "badhost", "hostport", "http10", "range", "many"}
+HKinds == {"flv", "ts", "m3u8", "hls"}
+HttpCore == { El("api", "start_rtp_pub", "ok", "POST", -1), El("api", "start_relay_pull", "ok", "POST", -1), El("api", "add_ip_blacklist", "ok", "POST", -1),
+              El("flv", "ok", "none", "plain", -1), El("m3u8", "ok", "none", "plain", -1) }
+HttpPool == HttpCore
+  \cup { El("api", ep, b, m, -1) : ep \in ApiEps, b \in ApiBodies, m \in {"POST", "GET"} }
+  \cup UNION { { El("api", ep, b, m, -1) : b \in ApiSpecial[ep], m \in {"POST", "GET"} } : ep \in DOMAIN ApiSpecial }
+  \cup { El("api", ep, "ok", m, -1) : ep \in ApiEps, m \in {"PUT", "HEAD", "DELETE", "OPTIONS"} }
+  \cup { El("api", ep, "none", q, -1) : ep \in {"stat_group", "stop_relay_pull"}, q \in ApiQueries }
+  \cup { El(k, p, "none", "plain", -1) : k \in HKinds, p \in HPaths }
+  \cup { El(k, "ok", q, "plain", -1) : k \in HKinds, q \in HQueries }
+  \cup { El(k, "ok", "none", h, -1) : k \in HKinds, h \in HHeaders }
+  \cup { El(k, p, q, "ws_ok", -1) : k \in HKinds, p \in HPaths, q \in (IF Level >= 2 THEN HQueries ELSE {"session", "badesc", "dup"}) }
+  \cup (IF Level >= 2 THEN { El(k, p, q, "plain", -1) : k \in HKinds, p \in HPaths, q \in HQueries } ELSE {})
+
+\* lal as client: what the upstream sends
+RtmpEls == {"hs_ok", "hs_v0", "hs_v6", "hs_ff", "hs_short", "hs_s0s1", "hs_text", "winack_ok", "winack_small", "winack_neg",
+     "winack_short", "winack_empty", "bw_ok", "bw_short", "cs_ok", "cs_0", "cs_1", "cs_huge", "cs_neg", "cs_short",
+     "cs_empty", "abort", "abort_short", "ack_ok", "ack_3", "ack_1", "ack_0", "uc_begin", "uc_ping", "uc_ping_5",
+     "uc_ping_2", "uc_1", "uc_0", "uc_unknown", "type0", "type7", "type15", "type16", "type17", "type19",
+     "type22", "type22_short", "type127", "connect_ok", "connect_rejected", "connect_nocode", "connect_codenum", "connect_oneobj", "connect_nulls", "connect_noobj",
+     "connect_ecma", "create_ok", "create_nonum", "create_nonull", "create_strid", "create_bigid", "create_nan", "create_neg", "result_tid0", "result_tid99",
+     "result_tidnan", "result_tidstr", "result_only", "play_ok", "publish_ok", "status_other", "status_nocode", "status_codenum", "status_nonull", "status_noobj",
+     "status_only", "error_ok", "error_nodesc", "error_descnum", "error_noobj", "error_needauth", "error_reason3", "error_reason2", "error_reason_empty", "cmd_unknown",
+     "cmd_bwdone", "cmd_empty", "cmd_num", "cmd_strcut", "cmd_notid", "cmd_objcut", "cmd_deep", "meta_ok", "meta_sample", "meta_empty",
+     "meta_num", "meta_strcut", "video_ok", "video_seq", "video_0", "video_1", "video_2", "video_4", "video_hevc1", "video_ext",
+     "audio_ok", "audio_seq", "audio_seq1", "audio_0", "audio_1", "chunk_fmt1_first", "chunk_fmt3_first", "chunk_csid0", "chunk_csid1", "chunk_lenmax",
+     "chunk_tsext", "chunk_len0", "chunk_cut", "bytes_ff"}
+RtspEls == {"ok", "ok_gp", "ok_udp", "s461", "s404", "s500body", "s302", "status_garbage", "status_nospace", "status_onlycode",
+     "status_empty", "status_http", "status_codestr", "status_long", "nocseq", "hdr_nocolon", "hdr_dup", "a401_nochal", "a401_basic", "a401_digest",
+     "a401_both", "a401_norealm", "a401_openquote", "a401_empty", "a401_schemeonly", "a401_unknown", "a401_sha", "a401_long", "cl_short", "cl_long",
+     "cl_neg", "cl_huge", "cl_2e62", "cl_nan", "cl_none_body", "t_none", "t_garbage", "t_noports", "t_port_garbage", "t_port_one",
+     "t_port_big", "t_port_0", "t_il_garbage", "sess_empty", "sess_long", "il_before", "il_only", "il_short", "il_hdr1", "il_len0",
+     "il_ch255", "il_rtcp1", "il_rtp_small", "il_media", "two", "half", "bytes"}
+FlvSt == {"ok", "ok10", "chunked", "cl0", "s404", "s500", "s302_self", "s302_noloc", "s302_bad", "s302_rel", "s302_https", "s302_rtmp", "s302_empty",
+          "garbage", "empty", "nospace", "onlycode", "nocolon", "longline", "manyhdr", "rtmp"}
+FlvFh == {"ok", "garbage", "v9", "offs", "noflags"}
+FlvTag == {"meta", "vseq", "video", "audio", "size0", "size1", "asize1", "msize1", "declmax", "declbig", "type0", "type255", "tsmax", "prevbad", "chunkhdr", "ff"}
+ClientPool(c) ==
+  CASE c.proto \in {"rtmp_pull", "rtmp_push"} -> { R(a) : a \in RtmpEls }
+    [] c.proto \in {"rtsp_tcp", "rtsp_udp"} -> { Q(a) : a \in RtspEls }
+    [] c.proto = "flv_pull" -> { F("st", a, -1) : a \in FlvSt } \cup { F("st", "cut", n) : n \in 0..47 }
+                               \cup { F("fh", a, -1) : a \in FlvFh } \cup { F("fh", "cut", n) : n \in 0..12 }
+                               \cup { F("tag", a, -1) : a \in FlvTag } \cup { F("tag", "cut", n) : n \in 0..39 }
+\* elements that may follow the valid exchange without ending the sequence
+ClientAfter(c) ==
+  CASE c.proto \in {"rtmp_pull", "rtmp_push"} -> { R(a) : a \in {"cs_ok", "cs_1", "winack_small", "video_seq", "audio_seq", "meta_ok"} }
+    [] c.proto \in {"rtsp_tcp", "rtsp_udp"} -> { Q(a) : a \in {"il_media", "ok", "ok_gp"} }
+    [] c.proto = "flv_pull" -> { F("tag", a, -1) : a \in {"vseq", "video", "audio"} }
+SdpClasses == {"good", "hevc", "clock0", "nocontrol", "abscontrol", "garbage", "empty", "m100", "nom", "noeq", "videoonly", "shortsets"}
+
+\* GB28181 RTP sequencing: packets arriving in order / after a gap / into the gap, with a well-formed unit,
+\* an unknown start code or continuation bytes, and "fill" elements the driver expands to more packets
+\* than the unpacker's reorder list holds (consecutive numbers behind a gap, or every other number)
+PsqCore == { El("good", "next", D, D, -1), El("good", "gap", D, D, -1), El("good", "hole", D, D, -1),
+             El("bad", "next", D, D, -1), El("bad", "hole", D, D, -1), El("cont", "next", D, D, -1) }
+PsqPool == PsqCore
+  \cup { El("fill", a, D, D, -1) : a \in {"consec_nosc", "consec_sc", "consec_bad", "gapped"} }
+  \cup { El(k, "back", D, D, -1) : k \in {"good", "bad", "cont"} }
+  \cup { El("bad", "gap", D, D, -1), El("cont", "gap", D, D, -1), El("cont", "hole", D, D, -1) }
+PsqFirst == { El("good", "next", D, D, -1), El("good", "gap", D, D, -1) }
+
+\* UDP transport of an RTSP publisher: SDP tracks x tracks set up; datagrams to the RTP / RTCP socket of a
+\* track with the payload type of that track / the other track / 0 / an unknown one, sender reports with the
+\* SSRC of either kind of packet
+UdpPts == {"own", "other", "zero", "unk"}
+UdpSsrcs == {"v", "a", "zero", "unk"}
+UdpCore == { El("rtp", t, p, "std", -1) : t \in {"v", "a"}, p \in UdpPts }
+UdpPool == UdpCore
+  \cup { El("rtp", t, p, "multi", -1) : t \in {"v", "a"}, p \in UdpPts }
+  \cup { El("rtcp", t, "sr", c, n) : t \in {"v", "a"}, c \in UdpSsrcs, n \in {-1, 27, 4, 1} }
+  \cup { El("rtcp", t, k, c, -1) : t \in {"v", "a"}, k \in {"rr", "srlong", "bye"}, c \in {"v", "a"} }
+
+Cfgs == CASE Surf = "rtp" -> { [vc |-> v, ac |-> "aac", sub |-> s, rate |-> "ok"] : v \in {"avc", "hevc"}, s \in {"n", "y"} }
+                           \cup { [vc |-> v, ac |-> "aac", sub |-> "n", rate |-> r] : v \in {"avc", "hevc"}, r \in {"0", "1", "999"} }   \* SDP clock rate class of both tracks
+          [] Surf = "psq" -> { [pre |-> p] : p \in {"none", "good"} }
+          [] Surf = "udp" -> { [sdp |-> x[1], setup |-> x[2]] : x \in {<<"va", "va">>, <<"va", "v">>, <<"va", "a">>, <<"v", "v">>, <<"a", "a">>} }
           [] Surf = "ps" -> { [pre |-> p] : p \in {"none", "good"} }
+          [] Surf = "client" -> { [proto |-> p, sdp |-> "good"] : p \in {"rtmp_pull", "rtmp_push", "rtsp_tcp", "rtsp_udp", "flv_pull"} }
+                                \cup { [proto |-> "rtsp_tcp", sdp |-> x] : x \in SdpClasses }
           [] OTHER -> { [x |-> D] }
-Core == CASE Surf = "rtsp" -> RtspCore [] Surf = "ws" -> WsCore [] Surf = "rtp" -> RtpCore(cfg) [] Surf = "ps" -> PsCore [] OTHER -> {}
-Pool == CASE Surf = "rtsp" -> RtspPool [] Surf = "ws" -> WsPool [] Surf = "rtp" -> RtpPool(cfg) [] Surf = "ps" -> PsPool [] OTHER -> {}
+Core == CASE Surf = "rtsp" -> RtspCore [] Surf = "ws" -> WsCore [] Surf = "rtp" -> RtpCore(cfg) [] Surf = "ps" -> PsCore
+          [] Surf = "http" -> HttpCore [] Surf = "psq" -> PsqCore [] Surf = "udp" -> UdpCore [] OTHER -> {}
+Pool == CASE Surf = "rtsp" -> RtspPool [] Surf = "ws" -> WsPool [] Surf = "rtp" -> RtpPool(cfg) [] Surf = "ps" -> PsPool
+          [] Surf = "http" -> HttpPool [] Surf = "client" -> ClientPool(cfg) \cup ClientAfter(cfg)
+          [] Surf = "psq" -> (IF seq = <<>> THEN PsqFirst ELSE PsqPool) [] Surf = "udp" -> UdpPool [] OTHER -> {}
+\* does the sequence go on after element e?  client: only along the valid exchange, then through ClientAfter
+Continues(e) ==
+  CASE Surf = "sdp" -> TRUE
+    [] Surf = "client" -> LET v == Valid(cfg.proto) IN
+                          IF Len(seq) < Len(v) THEN IsPrefix(seq, v) /\ e = v[Len(seq) + 1] ELSE e \in ClientAfter(cfg)
+    [] OTHER -> e \in Core
 
 Init == /\ cfg \in Cfgs /\ seq = <<>> /\ open = TRUE /\ st = RtspInit /\ act = [name |-> "init"]
 
@@ -101,7 +205,7 @@ First == IF Len(seq) > 0 THEN seq[1] ELSE GoodSdp
 Send(e) ==
   LET x == Expect(Surf, st, First, e) IN
   /\ \E stays \in Stays(x) :
-       /\ open' = (stays /\ (e \in Core \/ Surf = "sdp"))    \* an element outside the core ends the sequence
+       /\ open' = (stays /\ Continues(e))    \* an element outside the core ends the sequence
        /\ act' = [name |-> "Send", el |-> e, exp |-> x, stays |-> stays]
   /\ seq' = Append(seq, e)
   /\ st' = RtspStep(st, e)
@@ -115,7 +219,7 @@ Spec == Init /\ [][Next]_vars
 
 \* totality: every (state, element) has a defined expectation that never admits a crash, and what the
 \* specification expects can be observed (the allowed set is not empty)
-Witness(x, stays) == [codes |-> (IF x = "ok" THEN <<200>> ELSE IF x = "okmedia" THEN <<200, 200, 200>> ELSE <<>>), alive |-> stays, panic |-> FALSE, note |-> ""]
+Witness(x, stays) == [codes |-> (IF x = "ok" THEN <<200>> ELSE IF x = "okmedia" THEN <<200, 200, 200>> ELSE IF x = "ws101" THEN <<101>> ELSE <<>>), alive |-> stays, panic |-> FALSE, note |-> ""]
 Total == act.name = "Send" => /\ act.exp \in Kinds
                               /\ Allowed(act.exp, Witness(act.exp, act.stays))
                               /\ ~Allowed(act.exp, [Witness(act.exp, act.stays) EXCEPT !.panic = TRUE])
